@@ -151,6 +151,7 @@ func cmdCheck(args []string) {
 	nObl, nDis, nCover := 0, 0, 0
 	samples := []map[string]string{}
 	var engineErrs []string
+	engineErrs = append(engineErrs, e.stale...)
 	var allObls []*Obligation
 	e.VerifyAll(units, func(res *UnitResult) {
 		u := res.Unit
